@@ -51,6 +51,26 @@ struct Node {
     queue: VecDeque<(u8, Bytes)>,
     waker: Option<Waker>,
     bound: bool,
+    /// datagrams this node has put on the wire in the current virtual millisecond
+    tx_in_tick: u32,
+    tx_waiters: Vec<Waker>,
+    refill_scheduled: bool,
+}
+
+/// Cost of putting one datagram on the wire, charged to the virtual clock at send time. Virtual
+/// time otherwise only advances when nothing is runnable, so a sender that transmits in a tight
+/// loop (e.g. a closing QUIC connection re-sending CONNECTION_CLOSE until its drain timer fires)
+/// would keep the runtime busy forever. iroh's custom-transport dispatch treats `Poll::Pending`
+/// from a sender as "drop the datagram", so would-block cannot provide the back-pressure.
+pub const TX_COST: Duration = Duration::from_micros(100);
+pub const TX_PER_MS: u32 = 16;
+
+/// Advances the paused tokio clock from synchronous code: the first poll of `time::advance`
+/// moves the clock, the rest of that future (a yield) is not needed.
+fn charge_clock(d: Duration) {
+    let mut fut = std::pin::pin!(tokio::time::advance(d));
+    let mut cx = Context::from_waker(Waker::noop());
+    let _ = std::future::Future::poll(fut.as_mut(), &mut cx);
 }
 
 #[derive(Debug, Clone)]
@@ -69,9 +89,12 @@ pub struct NetInner {
     rng: Rng,
     pub partitions: BTreeSet<(u8, u8)>,
     pub log: Vec<PacketLog>,
-    pub routes: BTreeMap<EndpointId, u8>,
+    /// endpoint id -> slots the lookup service hands out for it (several = competing addresses)
+    pub routes: BTreeMap<EndpointId, Vec<u8>>,
     pub faults_enabled: bool,
     pub lookup_calls: u64,
+    /// how often a sender hit the link capacity
+    pub backpressure: u64,
 }
 
 #[derive(Debug, Clone)]
@@ -88,6 +111,7 @@ impl SimNet {
             routes: BTreeMap::new(),
             faults_enabled: true,
             lookup_calls: 0,
+            backpressure: 0,
         })))
     }
 
@@ -102,7 +126,12 @@ impl SimNet {
     }
 
     pub fn route(&self, id: EndpointId, slot: u8) {
-        self.0.lock().unwrap().routes.insert(id, slot);
+        self.0.lock().unwrap().routes.insert(id, vec![slot]);
+    }
+
+    /// Several competing addresses for one id (e.g. the real holder and an impostor).
+    pub fn route_multi(&self, id: EndpointId, slots: &[u8]) {
+        self.0.lock().unwrap().routes.insert(id, slots.to_vec());
     }
 
     pub fn partition(&self, a: u8, b: u8, on: bool) {
@@ -128,6 +157,46 @@ impl SimNet {
         self.0.lock().unwrap().log.iter().filter(|p| p.from == slot).count()
     }
 
+    /// Accounts one outgoing datagram of `slot`; false = would block (waker registered, woken in
+    /// the next virtual millisecond).
+    fn tx_admit(&self, slot: u8, cx: &mut Context<'_>) -> bool {
+        let mut g = self.0.lock().unwrap();
+        let node = g.nodes.entry(slot).or_default();
+        if node.tx_in_tick < TX_PER_MS {
+            node.tx_in_tick += 1;
+            if !node.refill_scheduled {
+                node.refill_scheduled = true;
+                drop(g);
+                self.schedule_refill(slot);
+            }
+            return true;
+        }
+        node.tx_waiters.push(cx.waker().clone());
+        g.backpressure += 1;
+        false
+    }
+
+    fn schedule_refill(&self, slot: u8) {
+        let net = self.clone();
+        tokio::spawn(async move {
+            tokio::time::sleep(Duration::from_millis(1)).await;
+            let wakers = {
+                let mut g = net.0.lock().unwrap();
+                let node = g.nodes.entry(slot).or_default();
+                node.tx_in_tick = 0;
+                node.refill_scheduled = false;
+                std::mem::take(&mut node.tx_waiters)
+            };
+            for w in wakers {
+                w.wake();
+            }
+        });
+    }
+
+    pub fn backpressure(&self) -> u64 {
+        self.0.lock().unwrap().backpressure
+    }
+
     fn deliver(&self, from: u8, to: u8, data: Bytes) {
         let mut g = self.0.lock().unwrap();
         if let Some(n) = g.nodes.get_mut(&to) {
@@ -139,6 +208,7 @@ impl SimNet {
     }
 
     fn send(&self, from: u8, to: u8, data: Bytes) {
+        charge_clock(TX_COST);
         if std::env::var_os("VERIF_TRACE").is_some() {
             static T0: std::sync::OnceLock<tokio::time::Instant> = std::sync::OnceLock::new();
             let t0 = *T0.get_or_init(tokio::time::Instant::now);
@@ -227,10 +297,11 @@ impl CustomSender for SimSender {
         addr.id() == SIM_TRANSPORT_ID
     }
 
-    fn poll_send(&self, _cx: &mut Context, dst: &CustomAddr, _src: Option<&CustomAddr>, transmit: &Transmit<'_>) -> Poll<io::Result<()>> {
+    fn poll_send(&self, cx: &mut Context, dst: &CustomAddr, _src: Option<&CustomAddr>, transmit: &Transmit<'_>) -> Poll<io::Result<()>> {
         let Some(to) = addr_slot(dst) else {
             return Poll::Ready(Err(io::Error::other("sim: bad address")));
         };
+        let _ = cx;
         let seg = transmit.segment_size.unwrap_or(transmit.contents.len()).max(1);
         for chunk in transmit.contents.chunks(seg) {
             self.net.send(self.slot, to, Bytes::copy_from_slice(chunk));
@@ -283,12 +354,104 @@ impl AddressLookup for SimNetLookup {
     fn resolve(&self, endpoint_id: EndpointId) -> Option<BoxStream<Result<Item, LookupError>>> {
         let mut g = self.0.0.lock().unwrap();
         g.lookup_calls += 1;
-        let slot = g.routes.get(&endpoint_id).copied()?;
+        let slots = g.routes.get(&endpoint_id).cloned()?;
         let item = Item::new(
-            EndpointInfo::from_parts(endpoint_id, EndpointData::new(vec![TransportAddr::Custom(slot_addr(slot))])),
+            EndpointInfo::from_parts(endpoint_id, EndpointData::new(slots.iter().map(|s| TransportAddr::Custom(slot_addr(*s))).collect::<Vec<_>>())),
             "simnet",
             None,
         );
         Some(Box::pin(n0_future::stream::once(Ok(item))))
+    }
+}
+
+// ------------------------------------------------------------------------------------------
+// Raw datagram socket on a SimNet slot for a bare `noq::Endpoint` (the adversary of C01): the same
+// network, faults and packet log as the iroh endpoints' custom transport, but none of iroh's code.
+
+/// The socket address a bare noq endpoint sees for a SimNet slot.
+pub fn slot_sockaddr(slot: u8) -> std::net::SocketAddr {
+    std::net::SocketAddr::new(std::net::Ipv6Addr::new(0xfd00, 0x51d, 0, 0, 0, 0, 0, slot as u16).into(), 4433)
+}
+
+fn sockaddr_slot(a: &std::net::SocketAddr) -> Option<u8> {
+    match a.ip() {
+        std::net::IpAddr::V6(ip) => {
+            let s = ip.segments();
+            (s[0] == 0xfd00 && s[1] == 0x51d && s[7] <= 255).then_some(s[7] as u8)
+        }
+        _ => None,
+    }
+}
+
+#[derive(Debug)]
+pub struct SimUdpSocket {
+    slot: u8,
+    net: SimNet,
+}
+
+#[derive(Debug)]
+struct SimUdpSender {
+    slot: u8,
+    net: SimNet,
+}
+
+impl SimNet {
+    pub fn udp_socket(&self, slot: u8) -> Box<dyn noq::AsyncUdpSocket> {
+        self.0.lock().unwrap().nodes.entry(slot).or_default().bound = true;
+        Box::new(SimUdpSocket { slot, net: self.clone() })
+    }
+}
+
+impl noq::UdpSender for SimUdpSender {
+    fn poll_send(self: std::pin::Pin<&mut Self>, transmit: &noq_udp::Transmit<'_>, cx: &mut Context<'_>) -> Poll<io::Result<()>> {
+        let Some(to) = sockaddr_slot(&transmit.destination) else {
+            return Poll::Ready(Ok(())); // not a simulated peer: dropped on the floor
+        };
+        let _ = cx;
+        let seg = transmit.segment_size.unwrap_or(transmit.contents.len()).max(1);
+        for chunk in transmit.contents.chunks(seg) {
+            self.net.send(self.slot, to, Bytes::copy_from_slice(chunk));
+        }
+        Poll::Ready(Ok(()))
+    }
+}
+
+impl noq::AsyncUdpSocket for SimUdpSocket {
+    fn create_sender(&self) -> std::pin::Pin<Box<dyn noq::UdpSender>> {
+        Box::pin(SimUdpSender { slot: self.slot, net: self.net.clone() })
+    }
+
+    fn poll_recv(&mut self, cx: &mut Context<'_>, bufs: &mut [io::IoSliceMut<'_>], meta: &mut [noq_udp::RecvMeta]) -> Poll<io::Result<usize>> {
+        let mut g = self.net.0.lock().unwrap();
+        let node = g.nodes.entry(self.slot).or_default();
+        let mut n = 0;
+        while n < bufs.len().min(meta.len()) {
+            let Some((from, data)) = node.queue.pop_front() else { break };
+            if data.len() > bufs[n].len() {
+                continue;
+            }
+            bufs[n][..data.len()].copy_from_slice(&data);
+            let mut m = noq_udp::RecvMeta::default();
+            m.addr = slot_sockaddr(from);
+            m.len = data.len();
+            m.stride = data.len();
+            m.dst_ip = Some(slot_sockaddr(self.slot).ip());
+            meta[n] = m;
+            n += 1;
+        }
+        if n > 0 {
+            Poll::Ready(Ok(n))
+        } else {
+            node.waker = Some(cx.waker().clone());
+            Poll::Pending
+        }
+    }
+
+    fn local_addr(&self) -> io::Result<std::net::SocketAddr> {
+        Ok(slot_sockaddr(self.slot))
+    }
+
+    fn may_fragment(&self) -> bool {
+        false
     }
 }
